@@ -50,6 +50,9 @@ def gen(rng, tier):
     if spec["cancel_at"] == "fn-running":
         runner.prefer_place(spec["sim"], 0.4)
     spec["sim"]["horizon_s"] = 5000
+    # (drawn last) the input is failed from inside an unrelated `except` block: sys.exc_info() is then
+    # not empty on the completing thread, and must not leak into the propagated exception
+    spec["in_except"] = rng.random() < 0.3
     return spec
 
 
@@ -246,6 +249,9 @@ def run(spec, env):
                 return x
             comp = F.f_map(raw, composed)
 
+    def unrelated_raiser():
+        raise KeyError("unrelated, handled by the completing thread")
+
     def completer():
         if raw is not None and spec["input_at"] is not None:
             if spec["input_at"]:
@@ -253,7 +259,14 @@ def run(spec, env):
             try:
                 if raw.set_running_or_notify_cancel():
                     if spec["input"] not in ("val", "val-future"):
-                        raw.set_exception(env.exc(("in",), {"exc-falsy": "FalsyErr", "exc-cancelled": "ErrCancelled"}.get(spec["input"], "ScriptedError")))
+                        the_exc = env.exc(("in",), {"exc-falsy": "FalsyErr", "exc-cancelled": "ErrCancelled"}.get(spec["input"], "ScriptedError"))
+                        if spec.get("in_except"):
+                            try:
+                                unrelated_raiser()
+                            except KeyError:
+                                raw.set_exception(the_exc)
+                        else:
+                            raw.set_exception(the_exc)
                     else:
                         raw.set_result(in_value())
             except Exception as e:
@@ -303,6 +316,7 @@ def run(spec, env):
     if st[0] == "exc":
         tb = "".join(traceback.format_tb(st[1].__traceback__)) if st[1].__traceback__ else ""
         env.objs["tb_has_work"] = ("in work" in tb)
+        env.objs["tb_unrelated"] = ("unrelated_raiser" in tb)
     if comp is not None:
         env.objs["comp"] = fut_state(comp)
 
@@ -381,6 +395,11 @@ def check(spec, env):
     if ok and want == ("exc", ("in",)) and spec["form"] == "ex" and any(s["err"] == "reraise" for s in spec["steps"]):
         if env.objs.get("tb_has_work") is False:
             out.append({"oracle": "traceback", "sig": "traceback-lost", "msg": "the re-raised exception lost the frames of the callable that raised it; chain %s" % shape})
+    # whatever exception comes out never carries the frames of an unrelated exception that merely
+    # happened to be in flight on the thread that completed the input
+    if env.objs.get("tb_unrelated"):
+        out.append({"oracle": "traceback", "sig": "traceback-foreign", "msg": "the output's exception carries the traceback of an unrelated exception "
+                    "that was being handled on the completing thread; input %s; chain %s" % (spec["input"], shape)})
     # composition
     comp = env.objs.get("comp")
     if comp is not None and not cancelled_by_client and comp[0] != "pending":
